@@ -185,7 +185,7 @@ func (g *c11Gen) keyFor(f *c10Field, prior *c10FV) []byte {
 		return (&c10Gen{r: g.r}).key()
 	case 5, 6:
 		if g.r.Intn(8) == 0 {
-			return []byte("nosuchmember")
+			return []byte([]string{"nosuchmember", "b", "c", "rank"}[g.r.Intn(4)]) // a member of some other struct type, perhaps
 		}
 		return []byte(f.fs[g.r.Intn(len(f.fs))].key)
 	}
